@@ -91,7 +91,7 @@ theorem namesOk_writable {valid : JStr → Bool} {n : Nat} {names : Names} (h : 
 theorem writable_writeOk {n : Nat} {m : Mappings} (h : writable n m = true) : writeOk m = true := by
   simp only [writable, Bool.and_eq_true, List.all_eq_true] at h
   simp only [writeOk, List.all_eq_true, Bool.and_eq_true]
-  refine ⟨fun s hs => (h.1.1.1.2 s hs).2, ?_⟩
+  refine ⟨fun s hs => (h.1.1.2 s hs).2, ?_⟩
   rintro ⟨k, c⟩ hc
   have h1 := h.2 (k, c) hc
   simp only [classOk, Bool.and_eq_true, List.all_eq_true] at h1
